@@ -7,7 +7,11 @@ import (
 	"fmt"
 	"os"
 	"path/filepath"
+	"slices"
+	"sort"
 	"strings"
+	"sync"
+	"sync/atomic"
 	"testing"
 	"time"
 
@@ -18,14 +22,16 @@ import (
 	"reduction.dev/reduction/proto/snapshotpb"
 	"reduction.dev/reduction/storage/locations"
 	"reduction.dev/reduction/storage/snapshots"
+	"reduction.dev/reduction/util/verifhook"
 	"verifharness/coord"
 	"verifharness/hx"
 )
 
 type op struct {
-	Kind string // complete | holdw | holdr | relw | relr | recv | restart
+	Kind string // complete | holdw | holdr | holdp | relw | relr | relp | recv | restart
 	On   bool
 	Pick int
+	SP   bool // complete: the checkpoint is a savepoint
 }
 type prog struct {
 	Ops      []op
@@ -40,9 +46,10 @@ func gen(rt *rapid.T) prog {
 	n := rapid.IntRange(2, 30).Draw(rt, "n")
 	for i := 0; i < n; i++ {
 		p.Ops = append(p.Ops, op{
-			Kind: rapid.SampledFrom([]string{"complete", "complete", "complete", "holdw", "holdr", "relw", "relr", "recv", "recv", "restart"}).Draw(rt, "kind"),
+			Kind: rapid.SampledFrom([]string{"complete", "complete", "complete", "complete", "holdw", "holdr", "holdp", "relw", "relr", "relp", "relp", "recv", "recv", "restart"}).Draw(rt, "kind"),
 			On:   rapid.Bool().Draw(rt, "on"),
 			Pick: rapid.IntRange(0, 3).Draw(rt, "pick"),
+			SP:   rapid.IntRange(0, 3).Draw(rt, "sp") == 0,
 		})
 	}
 	return p
@@ -105,6 +112,7 @@ func exec(p prog, c *hx.Case) error {
 	// reaches neither the storage nor anybody's channel
 	var retained chan []uint64
 	var client *coord.Client
+	var curStore atomic.Pointer[snapshots.Store]
 	stop := make(chan struct{})
 	defer close(stop)
 	newStore := func() *snapshots.Store {
@@ -126,9 +134,91 @@ func exec(p prog, c *hx.Case) error {
 		s := snapshots.NewStore(&snapshots.NewStoreParams{FileStore: client, SavepointsPath: "savepoints", CheckpointsPath: "checkpoints",
 			CheckpointEvents: events, ErrChan: errc, RetainedCheckpointsUpdated: retained})
 		s.RegisterSourceSplitter(&splitter{})
+		curStore.Store(s)
 		return s
 	}
 	store := newStore()
+	// Publications start in goroutines of their own; the harness can hold each at
+	// its very beginning (hook point) and let them go in any order.
+	var pmu sync.Mutex
+	pcond := sync.NewCond(&pmu)
+	holdP := false
+	type heldPub struct {
+		id       uint64
+		released bool
+	}
+	var heldPubs []*heldPub
+	heldEver := 0
+	verifhook.SetPoint(func(name string, args ...any) {
+		if name != "snapshots.publish.begin" || len(args) < 2 || args[0] != any(curStore.Load()) {
+			return // (also: a replaced job process is not scheduled by anybody any more)
+		}
+		pmu.Lock()
+		defer pmu.Unlock()
+		if !holdP {
+			return
+		}
+		h := &heldPub{id: args[1].(uint64)}
+		heldPubs = append(heldPubs, h)
+		heldEver++
+		pcond.Broadcast()
+		for holdP && !h.released {
+			pcond.Wait()
+		}
+		for i, x := range heldPubs {
+			if x == h {
+				heldPubs = append(heldPubs[:i], heldPubs[i+1:]...)
+				break
+			}
+		}
+	})
+	defer verifhook.SetPoint(nil)
+	releaseAllPubs := func() {
+		pmu.Lock()
+		holdP = false
+		pcond.Broadcast()
+		pmu.Unlock()
+	}
+	defer releaseAllPubs()
+	heldCount := func() int {
+		pmu.Lock()
+		defer pmu.Unlock()
+		return heldEver
+	}
+	// the operator's own checkpoints file: it lists the checkpoints the operator
+	// retains (what it acknowledged, minus what a retention update let it drop)
+	opHas := map[uint64]bool{}
+	writeOpFile := func() {
+		var ids []uint64
+		for id := range opHas {
+			ids = append(ids, id)
+		}
+		sort.Slice(ids, func(i, j int) bool { return ids[i] < ids[j] })
+		var b strings.Builder
+		b.WriteString(`{"checkpoints":[`)
+		for i, id := range ids {
+			if i > 0 {
+				b.WriteString(",")
+			}
+			fmt.Fprintf(&b, `{"id":%d,"wals":[],"levels":[]}`, id)
+		}
+		b.WriteString("]}")
+		loc.Put("work/op/checkpoints", []byte(b.String()))
+	}
+	applyRetention := func(ids []uint64) {
+		var newest uint64
+		for _, id := range ids {
+			newest = max(newest, id)
+		}
+		for id := range opHas {
+			if !slices.Contains(ids, id) && id < newest { // newer ones are still in progress: kept
+				delete(opHas, id)
+			}
+		}
+		writeOpFile()
+	}
+	savepoints := map[uint64]int{} // savepoint id -> incarnation of the job process that completed it
+	outOfOrder := 0
 	var notes [][]uint64 // retention notifications in the order received
 	var completedIDs []uint64
 	overlaps, restarts := 0, 0
@@ -137,6 +227,7 @@ func exec(p prog, c *hx.Case) error {
 			select {
 			case ids := <-retained:
 				notes = append(notes, ids)
+				applyRetention(ids) // the job forwards it to the operators
 			case <-time.After(d):
 				return
 			}
@@ -145,10 +236,22 @@ func exec(p prog, c *hx.Case) error {
 	for step, o := range p.Ops {
 		switch o.Kind {
 		case "complete":
-			id, err := store.CreateCheckpoint([]string{"op"}, []string{"sr"})
-			if err != nil {
-				return hx.Errf("step %d: CreateCheckpoint: %v", step, err)
+			var id uint64
+			var err error
+			if o.SP {
+				id, _, err = store.CreateSavepoint([]string{"op"}, []string{"sr"})
+			} else {
+				id, err = store.CreateCheckpoint([]string{"op"}, []string{"sr"})
 			}
+			if err != nil {
+				return hx.Errf("step %d: creating checkpoint (savepoint=%v): %v", step, o.SP, err)
+			}
+			if o.SP {
+				savepoints[id] = restarts
+			}
+			opHas[id] = true // the operator wrote its checkpoint before it acknowledges
+			writeOpFile()
+			heldBefore := heldCount()
 			if loc.Blocked("write") > 0 {
 				overlaps++
 			}
@@ -165,13 +268,33 @@ func exec(p prog, c *hx.Case) error {
 			// (publications are serialized: behind a held write the next one queues up
 			// without starting its own write)
 			deadline := time.Now().Add(5 * time.Second)
-			for loc.StartedCount("write") == before && loc.Blocked("write") == 0 && loc.Blocked("remove") == 0 && time.Now().Before(deadline) {
+			for loc.StartedCount("write") == before && loc.Blocked("write") == 0 && loc.Blocked("remove") == 0 && heldCount() == heldBefore && time.Now().Before(deadline) {
 				time.Sleep(10 * time.Microsecond)
 			}
 		case "holdw":
 			loc.SetHold("write", o.On)
 		case "holdr":
 			loc.SetHold("remove", o.On)
+		case "holdp":
+			pmu.Lock()
+			holdP = o.On
+			pcond.Broadcast()
+			pmu.Unlock()
+		case "relp":
+			pmu.Lock()
+			if n := len(heldPubs); n > 0 {
+				i := 0
+				if o.Pick%2 == 1 {
+					i = n - 1 // the youngest first: publications begin out of completion order
+					if n > 1 {
+						outOfOrder++
+					}
+				}
+				heldPubs[i].released = true
+				pcond.Broadcast()
+			}
+			pmu.Unlock()
+			time.Sleep(50 * time.Microsecond)
 		case "relw":
 			loc.ReleaseOne("write", "")
 		case "relr":
@@ -183,6 +306,7 @@ func exec(p prog, c *hx.Case) error {
 			// has not landed by then dies with the process (a crash point)
 			loc.SetHold("write", false)
 			loc.SetHold("remove", false)
+			releaseAllPubs()
 			recvAll(2 * time.Millisecond)
 			store = newStore()
 			if err := store.LoadCheckpoint(); err != nil {
@@ -199,7 +323,38 @@ func exec(p prog, c *hx.Case) error {
 	// let everything in flight land
 	loc.SetHold("write", false)
 	loc.SetHold("remove", false)
+	releaseAllPubs()
 	recvAll(3 * time.Millisecond)
+	select {
+	case err := <-errc:
+		return hx.Errf("publication failed: %v", err)
+	default:
+	}
+	// every savepoint the last incarnation of the job completed has its artifact,
+	// and the artifact's copy of the operator's checkpoints file lists the savepoint
+	spDone := 0
+	for id, inc := range savepoints {
+		if inc != restarts {
+			continue // a replaced job process may have died before it got that far
+		}
+		found := false
+		for _, f := range loc.Files() {
+			i := strings.Index(f, "/dkv/")
+			if i < 0 || !strings.HasSuffix(f, "/op/checkpoints") || !strings.Contains(f, "/savepoints/") {
+				continue
+			}
+			data, _ := loc.Read(f)
+			if strings.Contains(string(data), fmt.Sprintf(`{"id":%d,`, id)) {
+				if _, err := loc.Read(f[:i] + "/job.savepoint"); err == nil {
+					found = true
+				}
+			}
+		}
+		if !found {
+			return hx.Errf("savepoint %d completed (every member acknowledged) and everything in flight has landed, but no artifact holds it (files: %v)", id, loc.Files())
+		}
+		spDone++
+	}
 	journal := loc.Journal()
 	// 1. cleanup never removes the newest completely written checkpoint
 	nameOrderDiffers := 0
@@ -293,7 +448,10 @@ func exec(p prog, c *hx.Case) error {
 	c.LabelIf(overlaps > 0, "overlapping-publications")
 	c.LabelIf(nameOrderDiffers > 0, "file-name-order-differs-from-id-order")
 	c.LabelIf(restarts > 0, "restart")
-	if len(completedIDs) >= 2 && (nameOrderDiffers > 0 || overlaps > 0) {
+	c.LabelIf(spDone > 0, "savepoint")
+	c.LabelIf(heldCount() > 0, "publication-held-at-its-start")
+	c.LabelIf(outOfOrder > 0, "publications-begin-out-of-completion-order")
+	if len(completedIDs) >= 2 && (nameOrderDiffers > 0 || overlaps > 0 || outOfOrder > 0) {
 		c.NonTrivial()
 	}
 	return nil
